@@ -188,9 +188,8 @@ def explore(rep, tier, pid):
     for t in T:
         states.setdefault(canon(t["from"]), t["from"])
         states.setdefault(canon(t["to"]), t["to"])
-    # initial states = the templates: sources that no logged transition leads to
-    targets = {canon(t["to"]) for t in T}
-    inits = [k for k in {canon(t["from"]) for t in T} if k not in targets]
+    # initial states = the templates (logged at level 1)
+    inits = sorted({canon(e["st"]) for e in E if e["lvl"] == 1 and canon(e["st"]) in states})
     E = [e for e in E if canon(e["st"]) in states]     # TLC also evaluates invariants on successors its action constraints reject
     graph, access = bfs_access(T, inits, ALLF)
     if len(access) != r.distinct:
